@@ -41,7 +41,7 @@ def mandatory_bins(tier):
     b += ["key_trailing_zero_%d" % z for z in (1, 2, 3, 15)]
     b += ["crc_lo_00:cust", "crc_hi_00:cust", "crc_both_00:cust", "crc_lo_00:update", "crc_hi_00:update", "crc_both_00:update",
           "decryptors_all", "decryptors_single", "decryptors_partial", "pass_through_block", "encrypted_config_component", "customer_key_present", "customer_key_absent",
-          "version_00", "version_ff", "version_80", "code_all_zero", "code_ends_00", "config_blob_trailing_zero_padding", "key_all_zero", "ecc_distractor_decryptors_before_the_matching_one", "ecc_distractor_encryptors_on_write", "second_write_after_replacing_a_block_of_the_same_kind"]
+          "version_00", "version_ff", "version_80", "code_all_zero", "code_ends_00", "config_blob_trailing_zero_padding", "key_all_zero", "ecc_distractor_decryptors_before_the_matching_one", "ecc_distractor_encryptors_on_write", "second_write_after_replacing_a_block_of_the_same_kind", "foreign_blocks_of_unknown_kind"]
     return b
 
 
@@ -120,7 +120,7 @@ def check_case(ns, ctx, case, conf, key, specs, subsets):
         return
     for subset in subsets:
         ctx.ev()
-        if len(subset) == len(specs):
+        if len(subset) == len(GB.openable(specs)):
             ctx.bin("decryptors_all")
         elif len(subset) == 1:
             ctx.bin("decryptors_single")
@@ -143,7 +143,9 @@ def check_case(ns, ctx, case, conf, key, specs, subsets):
         got = [block_attrs(b, ns) for b in back.auth_blocks.values()]
         want = []
         for i, s in enumerate(specs):
-            if i in subset:
+            if s["kind"] == "unknown":
+                want.append(("unknown", s["tag"], s["value"]))
+            elif i in subset:
                 want.append({"cust": ("cust", 1), "ecc": ("ecc", 3, s.get("sel")), "update": ("update", 2, s.get("code"), s.get("version"))}[s["kind"]])
             else:
                 want.append(("unknown", GB.TAGS[s["kind"]], written_blocks[i][1]))
@@ -171,7 +173,7 @@ def check_case(ns, ctx, case, conf, key, specs, subsets):
             f.write_file(buf2, wenc)
             back = B.Bec2File.read_file(io.StringIO(buf2.getvalue()), GB.read_encryptors(ns, specs2), True)
             got = [block_attrs(b, ns) for b in back.auth_blocks.values()]
-            want = [{"cust": ("cust", 1), "ecc": ("ecc", 3, s.get("sel")), "update": ("update", 2, s.get("code"), s.get("version"))}[s["kind"]] for s in specs2]
+            want = [("unknown", s["tag"], s["value"]) if s["kind"] == "unknown" else {"cust": ("cust", 1), "ecc": ("ecc", 3, s.get("sel")), "update": ("update", 2, s.get("code"), s.get("version"))}[s["kind"]] for s in specs2]
             if sorted(map(repr, got)) != sorted(map(repr, want)) or bytes(back.session_key) != key:
                 ctx.violation("second_write_after_block_replacement_reads_back_stale_or_wrong_blocks", {"got": got, "expected": want}, rp)
         except Exception as e:
@@ -203,7 +205,9 @@ def run_shard(spec, ctx):
     for j in range(spec["n"]):
         idx = spec["i"] + NSH * j
         kinds = lists[idx % len(lists)]
-        specs = GB.gen_blocks(rng, kinds)
+        specs = GB.gen_blocks(rng, kinds, foreign=(idx % 4 == 2))
+        if idx % 4 == 2:
+            ctx.bin("foreign_blocks_of_unknown_kind")
         ctx.bin("blocks_" + "+".join(kinds))
         for s in specs:
             if s["kind"] == "ecc":
@@ -250,10 +254,11 @@ def run_shard(spec, ctx):
             conf[(0x3000, rng.randrange(0xFF))] = rng.randbytes(rng.randrange(0, 60))
             if rng.random() < 0.3:
                 conf[(0x3001, 1)] = bytes(rng.randrange(1, 20))
-        n = len(specs)
-        subs = all_subsets(n)
+        op = GB.openable(specs)
+        n = len(op)
+        subs = [frozenset(op[i] for i in sub) for sub in all_subsets(n)]
         if ctx.tier == "quick" and n == 3 and idx % 3:
-            subs = [frozenset(range(n)), rng.choice(subs)]
+            subs = [frozenset(op), rng.choice(subs)]
         check_case(ns, ctx, case, conf, key, specs, subs)
         if j == 0:
             ctx.sample({"key": key, "blocks": GB.spec_json(specs), "components": len(case.comps), "config": conf is not None})
